@@ -127,6 +127,7 @@ def builtinArityOk (b : Core.Builtin) (n : Nat) : Bool :=
   | .join | .range | .member | .count | .equals | .compare | .primitiveEquals | .assertEqual => n == 2
   | .sort | .set => n == 1 || n == 2
   | .objectHasEx | .foldl | .foldr | .filterMap => n == 3
+  | .pure p => n == Core.pureArity p
 
 /-- the callee is `std.<name>` (identifier `std`, then a field): the hex payload of `<name>` -/
 def stdCallee : Parser.Expr → Option String
